@@ -92,7 +92,7 @@ CHECKS["C02"] = _srv(
     "permission for the sender's IP or a live binding for its exact address, and nothing anywhere otherwise.",
     "non-trivial = at least one unauthorised arrival while another authorisation is live in the same allocation, and at least one "
     "authorised arrival; distinct by script hash",
-    _SRV_NOTE + " TCP-allocation (connection) part of the statement is exercised by the C16 world.")
+    _SRV_NOTE + " The TCP-allocation (connection) part of the statement has its own stage in the TCP-relay world.")
 
 CHECKS["C04"] = _srv(
     "C04",
@@ -148,7 +148,7 @@ CHECKS["C15"] = _srv(
     "the harness generator must be exactly those of the model's live allocations, AllocationCount must match, and created/deleted "
     "callbacks must pair one-to-one with the model's live objects.",
     "non-trivial = a teardown happens in a history that created at least one permission and one channel",
-    _SRV_NOTE + " Goroutine drain of the bubble and TCP resources are judged in the C16/C18 worlds.")
+    _SRV_NOTE + " Every teardown history ends with Server.Close and two quiet virtual hours (no log line, no event, all sockets closed, bubble drains); TCP allocations have their own stage.")
 
 CHECKS["C19"] = _srv(
     "C19",
@@ -168,6 +168,14 @@ CHECKS["C03"] = _srv(
     "must carry the configured realm and a nonce that is accepted when used immediately.",
     "non-trivial = a defective request was judged in a history in which an allocation exists",
     _SRV_NOTE + " Cryptographic forgery is out of scope; MAC collisions are not searched.")
+CHECKS["C02"]["stages"].append(
+    {"name": "tcp-inbound", "pkg": "srvworld", "run": "^TestC02TCP$",
+     "quick": {"shards": 2, "checks": 2000, "timeout_s": 420},
+     "thorough": {"shards": 8, "checks": 20000, "size": 50, "timeout_s": 2400}})
+CHECKS["C15"]["stages"].append(
+    {"name": "tcp-teardown", "pkg": "srvworld", "run": "^TestC15TCP$",
+     "quick": {"shards": 2, "checks": 2000, "timeout_s": 420},
+     "thorough": {"shards": 8, "checks": 20000, "size": 50, "timeout_s": 2400}})
 CHECKS["C04"]["stages"].append(
     {"name": "tcp-isolation", "pkg": "srvworld", "run": "^TestC04TCP$",
      "quick": {"shards": 2, "checks": 2000, "timeout_s": 420},
